@@ -88,6 +88,15 @@ func (se *SpecEnv) eval(e ast.Expr) Value {
 		return se.ident(x.Name)
 	case *ast.UnaryExpr:
 		a := se.eval(x.X)
+		if x.Op != token.AND {
+			a = se.rvalue(a)
+			if p, isP := a.(*PtrV); isP {
+				a = se.rvalue(se.deref(p))
+			}
+			if _, isT := a.(*Term); !isT {
+				unsup("spec unary %s on %T", x.Op, a)
+			}
+		}
 		switch x.Op {
 		case token.NOT:
 			return F.Not(a.(*Term))
@@ -106,9 +115,15 @@ func (se *SpecEnv) eval(e ast.Expr) Value {
 			return F.Or(se.eval(x.X).(*Term), se.eval(x.Y).(*Term))
 		}
 		a, b := se.rvalue(se.eval(x.X)), se.rvalue(se.eval(x.Y))
-		_, pa := a.(*PtrV)
-		_, pb := b.(*PtrV)
-		if !(pa && pb && (x.Op == token.EQL || x.Op == token.NEQ)) {
+		pva, pa := a.(*PtrV)
+		pvb, pb := b.(*PtrV)
+		scalarCells := false
+		if pa && pb && pva.Obj != nil && pvb.Obj != nil {
+			_, sa := se.rvalue(se.deref(pva)).(*Term)
+			_, sb := se.rvalue(se.deref(pvb)).(*Term)
+			scalarCells = sa && sb // lvalues of scalar cells (p.X == a.X): compare the values, not the addresses
+		}
+		if !(pa && pb && (x.Op == token.EQL || x.Op == token.NEQ)) || scalarCells {
 			// lvalues of scalar cells are read
 			if pa {
 				a = se.rvalue(se.deref(a))
@@ -468,7 +483,11 @@ func (se *SpecEnv) callSpec(c *ast.CallExpr) Value {
 	}
 	arg := func(i int) Value { return se.eval(c.Args[i]) }
 	targ := func(i int) *Term {
-		t, ok := se.rvalue(arg(i)).(*Term)
+		av := se.rvalue(arg(i))
+		if p, isP := av.(*PtrV); isP {
+			av = se.rvalue(se.deref(p))
+		}
+		t, ok := av.(*Term)
 		if !ok {
 			unsup("spec %s: argument %d is not scalar", name, i)
 		}
@@ -565,6 +584,10 @@ func (se *SpecEnv) callSpec(c *ast.CallExpr) Value {
 		}
 		se.fr.v.assume("reg(v) denotes the unique residue r < q with r*R = v (mod q); existence uses gcd(R,q)=1 (q is odd: checked)")
 		return r
+	case "iszero": // ring predicate (uninterpreted over the Z-lifting)
+		return se.fr.v.ringIsZero(targ(0))
+	case "inv":
+		return se.fr.v.ringInv(targ(0))
 	case "valw": // valw(w, t0, t1, ...): little-endian value of explicit w-bit words
 		w := targ(0)
 		var sum []*Term
